@@ -958,6 +958,7 @@ func checkC15(c *Ctx) {
 	c.Assume("sort of an array that holds containers (string form of a container), an array pushed into itself, ++ of an element that is a container and ++ of an index past the end (creation: C09) are not fixed by the statement and are not generated; an index read past the end and a read of a missing object member are null and change nothing, also as arguments of push")
 	c.Assume("element values: small integers, short strings, null, true; numeric strings only \"10\"; argument-count errors are not exercised")
 	c.Assume("arrays live in variables (a, b, c), in fields of the input document ($.a, $.b, $.c) and inside other containers (o.p, q[0], w.z.y); every history runs in all three placements")
+	c.Assume("a receiver is a name or an element a[i] of a named array; receivers that are call results (a.pop().push(1)) work on a copy of the slice header (C09's alias question) and are not generated; a method of a missing or scalar element is C16's")
 	pool := c.Pool()
 	pool.Timeout = 120 * time.Second
 	stats := map[string]int{}
@@ -998,10 +999,13 @@ func checkC15(c *Ctx) {
 	}
 	c.Set("exhaustive", true)
 	c.Set("rule", "MC_List emits every history of <= depth_ops statements over the alphabet Small and of <= breadth_ops over Big (push/pop/popfirst/length/sort/contains/"+
-		"a[i]/a[i]=v on two arrays with calls nested in arguments to depth 3) with result, contents and lengths after every statement; each is run with the arrays in "+
-		"variables, in $ and inside other containers; non-trivial = at least two statements; distinct by program. Trace_List validates seeded random histories of 200-2000 statements (queue idiom) recorded from the real code")
-	c.Set("checker_cmd", "tlc MC_List (Mode depth / breadth), tlc Trace_List; replay and recording through lang.EvalProgram")
-	c.Set("bounds", map[string]int{"depth_ops": depth, "breadth_ops": breadth})
+		"a[i]/a[i]=v/++a[i] on two arrays with calls nested in arguments to depth 3; index writes in range, appending, one and several places past the end, negative) "+
+		"with result, contents and lengths after every statement; nested / nestedbig: the same on arrays that hold arrays (a = [[1], [2, 5]], b = [[3], 5, [5, 2]]) with a[i].m(args) "+
+		"whose arguments pop / popfirst / read a itself (<= nested_ops over SmallN, <= nestedbig_ops over BigN); long: seeded histories of 2-4 statements on arrays of up to 45 elements "+
+		"with many elements that tie under sort's order (MC_List Mode given, expectations from the spec's stable sort); each is run with the arrays in "+
+		"variables, in $ and inside other containers; non-trivial = at least two statements; distinct by program. Trace_List validates seeded random histories of 200-2000 statements (queue idiom) recorded from the real code, contents compared after every 16th statement")
+	c.Set("checker_cmd", "tlc MC_List (Mode depth / breadth / nested / nestedbig / given), tlc Trace_List; replay and recording through lang.EvalProgram")
+	c.Set("bounds", map[string]int{"depth_ops": depth, "breadth_ops": breadth, "nested_ops": nestedDepth, "nestedbig_ops": nestedBig, "long_histories": nlong})
 	c.Set("histories", stats)
 	c.Set("exercised", tags)
 }
